@@ -113,9 +113,13 @@ pub fn unicode_caps() -> BoxedStrategy<String> {
         2 => proptest::sample::select(vec!["cap_chown", "cap_kill", "CAP_SETUID", "all", "cap_", "_", "c", "p"]).prop_map(|s| s.to_string()),
         1 => Just(",".to_string()),
     ];
-    (proptest::collection::vec(piece, 0..8), proptest::option::weighted(0.6, proptest::sample::select(vec!["cap_chown,", "cap_chown ", "=e "])), "[=+-]", "[eip]{0,3}", proptest::option::weighted(0.3, proptest::sample::select(vec!["é", "ı", " cap_kill+i", "ﬁ"])))
-        .prop_map(|(name, before, op, flags, tail)| format!("{}{}{op}{flags}{}", before.unwrap_or(""), name.concat(), tail.unwrap_or("")))
-        .boxed()
+    // long unknown names with a multi-byte character at every offset around 16/32/64/128/256
+    // (error messages and buffers that cut a name at a fixed byte length)
+    let long = (proptest::sample::select(vec![16usize, 32, 64, 128, 256, 4096]), 0usize..6, proptest::sample::select(vec!["é", "ı", "ﬁ", "漢", "🦀", "ŉ"]), 0usize..40, any::<bool>())
+        .prop_map(|(edge, back, ch, tail, listed)| format!("{}{}{}{}=ep", if listed { "cap_chown," } else { "" }, "x".repeat(edge.saturating_sub(back)), ch, "y".repeat(tail)));
+    let short = (proptest::collection::vec(piece, 0..8), proptest::option::weighted(0.6, proptest::sample::select(vec!["cap_chown,", "cap_chown ", "=e "])), "[=+-]", "[eip]{0,3}", proptest::option::weighted(0.3, proptest::sample::select(vec!["é", "ı", " cap_kill+i", "ﬁ"])))
+        .prop_map(|(name, before, op, flags, tail)| format!("{}{}{op}{flags}{}", before.unwrap_or(""), name.concat(), tail.unwrap_or("")));
+    prop_oneof![4 => short, 1 => long].boxed()
 }
 
 impl Property for C19 {
